@@ -166,3 +166,14 @@ Theorem C16_K_sound_no_use_after_close :
   forall i, returned_in (pre ++ [(e, o)]) i (OConn h) -> released_in (pre ++ [(e, o)]) i.
 Proof. exact K_sound_no_use_after_close. Qed.
 Print Assumptions C16_K_sound_no_use_after_close.
+
+(** K_P soundness, second clause: in an accepted case a Dial call to an
+    address is observed only after every earlier observed Dial call to that
+    address was ended by an applied event (let return / context cancelled). *)
+Theorem C16_K_sound_one_dial_in_flight :
+  forall c, kaccepts c = true ->
+  forall pre e o post, c = pre ++ (e, o) :: post ->
+  forall d2 a, In (d2, a) (o_dials (canon o)) ->
+  forall d1, dial_in pre d1 a -> ended_in pre d1.
+Proof. exact K_sound_one_dial_in_flight. Qed.
+Print Assumptions C16_K_sound_one_dial_in_flight.
